@@ -218,9 +218,24 @@ package config
 //@   loop 1 invariant[digests-so-far] forall(p, string, in(p, seen1) ==> in(p, fsb.dataMD5) && fsb.dataMD5[p] == md5of(fsb.data[p]))
 //@   ensures[md5-of-every-stored-file] forall(p, string, in(p, fsb.data) ==> in(p, fsb.dataMD5) && fsb.dataMD5[p] == md5of(fsb.data[p]))
 
+// The roll-back sees a location only if the operation object tracks it: every snapshot (the backup and the "current
+// state" inside Restore) walks fs.directories and fs.files and nothing else, while the Save* functions write by the
+// environment's paths and create missing directories on the way. So the object tracks ALL managed locations from the
+// start, whether or not they exist on disk at that moment (a directory that is missing when the update arrives and is
+// created by the rejected payload must still be rolled back).
+//@ pure environment.GetUserMetricsConfigFilePath
+//@ ghost func tracksAll(fs *FileSystemOperation) bool = fs != nil && fs.directories != nil && fs.files != nil && in(flowsDirKey, fs.directories) && fs.directories[flowsDirKey] == environment.GetStreamsFlowsDirectory() && in(quotasDirKey, fs.directories) && fs.directories[quotasDirKey] == environment.GetQuotasDirectory() && in(pathParamsDirKey, fs.directories) && fs.directories[pathParamsDirKey] == environment.GetPathParamsDirectory() && in(gatewayConfigFileKey, fs.files) && fs.files[gatewayConfigFileKey] == environment.GetGatewayConfigPath() && in(metricsConfigFileKey, fs.files) && fs.files[metricsConfigFileKey] == environment.GetUserMetricsConfigFilePath()
+//@ func NewFileSystemOperation
+//@   prop C08
+//@   modifies nothing
+//@   allocates FileSystemOperation, FileSystemBackUp, map
+//@   ensures[fresh] result != nil && !old(allocated(result))
+//@   ensures[tracks-every-managed-location] tracksAll(result)
+
 // a snapshot is consistent: one digest per stored file, the digest of its content
 //@ ghost func snapOK(b *FileSystemBackUp) bool = b != nil && b.data != nil && b.dataMD5 != nil && forall(p, string, in(p, b.dataMD5) <==> in(p, b.data)) && forall(p, string, in(p, b.data) ==> b.dataMD5[p] == md5of(b.data[p]))
 //@ extern FileSystemOperation.createFileSystemBackUp
+//@   requires[walks-the-tracked-locations-only] tracksAll(fs)
 //@   modifies nothing
 //@   allocates FileSystemBackUp, map
 //@   ensures[snapshot-of-disk] result1 == nil ==> snapOK(result0) && !old(allocated(result0)) && !allocated_at_entry(result0.data) && !allocated_at_entry(result0.dataMD5) && result0.data != result0.dataMD5 && forall(p, string, in(p, result0.data) <==> fsdom[p]) && forall(p, string, fsdom[p] ==> result0.data[p] == fsys[p])
@@ -288,7 +303,7 @@ package config
 
 //@ func (*FileSystemOperation).Backup
 //@   prop C08
-//@   requires fs != nil
+//@   requires fs != nil && tracksAll(fs)
 //@   modifies fs.backUp
 //@   allocates FileSystemBackUp, map
 //@   ensures[backup-is-the-disk] result == nil ==> snapOK(fs.backUp) && !allocated_at_entry(fs.backUp.data) && !allocated_at_entry(fs.backUp.dataMD5) && forall(p, string, in(p, fs.backUp.data) <==> fsdom[p]) && forall(p, string, fsdom[p] ==> fs.backUp.data[p] == fsys[p])
@@ -296,7 +311,7 @@ package config
 // After a successful Restore the managed files are byte-for-byte those of the backup: same set of files, same content.
 //@ func (*FileSystemOperation).Restore
 //@   prop C08
-//@   requires fs != nil && snapOK(fs.backUp)
+//@   requires fs != nil && snapOK(fs.backUp) && tracksAll(fs)
 //@   modifies fsdom, fsys, grestoreOK
 //@   on return do grestoreOK = (result == nil)
 //@   ensures[outcome-recorded] grestoreOK <==> result == nil
